@@ -178,13 +178,56 @@ func Context2(chain bool, cov []uint16, backClasses, inClasses, lookClasses map[
 // ---- GPOS ----
 
 // Value is a value record; the fields present are chosen by a value format (1 XPlacement,
-// 2 YPlacement, 4 XAdvance, 8 YAdvance).
-type Value struct{ XPla, YPla, XAdv, YAdv int }
+// 2 YPlacement, 4 XAdvance, 8 YAdvance, 0x10/0x20/0x40/0x80 the Device tables of the four).
+type Value struct {
+	XPla, YPla, XAdv, YAdv int
+	Dev                    [4]*Device // hinting Device tables (nil: NULL offset)
+}
 
-func (v Value) put(w *buf, format int) {
+// Device is a hinting Device table: Deltas[i] is the adjustment in pixels at Start+i pixels per
+// em; Format 1, 2, 3 packs them in 2, 4, 8 bits.
+type Device struct {
+	Start, Format int
+	Deltas        []int
+}
+
+func (d *Device) bytes() []byte {
+	var w buf
+	w.u16(d.Start)
+	w.u16(d.Start + len(d.Deltas) - 1)
+	w.u16(d.Format)
+	bits := 1 << d.Format // 2, 4, 8
+	per := 16 / bits
+	for i := 0; i < len(d.Deltas); i += per {
+		word := 0
+		for k := 0; k < per; k++ {
+			v := 0
+			if i+k < len(d.Deltas) {
+				v = d.Deltas[i+k]
+			}
+			word |= (v & (1<<bits - 1)) << (16 - bits*(k+1))
+		}
+		w.u16(word)
+	}
+	return w.b
+}
+
+// put writes the record; the offsets of its Device tables (relative to the table children() is
+// later called for) are collected in slots/blobs.
+func (v Value) put(w *buf, format int, slots *[]int, blobs *[][]byte) {
 	for bit, x := range []int{v.XPla, v.YPla, v.XAdv, v.YAdv} {
 		if format&(1<<bit) != 0 {
 			w.u16(x)
+		}
+	}
+	for k := 0; k < 4; k++ {
+		if format&(0x10<<k) != 0 {
+			at := w.len()
+			w.u16(0)
+			if v.Dev[k] != nil && slots != nil {
+				*slots = append(*slots, at)
+				*blobs = append(*blobs, v.Dev[k].bytes())
+			}
 		}
 	}
 }
@@ -201,10 +244,11 @@ func SinglePos2(glyphs []uint16, format int, values []Value) []byte {
 	w.u16(0)
 	w.u16(format)
 	w.u16(len(gs))
+	slots, blobs := []int{2}, [][]byte{Coverage(gs...)}
 	for _, g := range gs {
-		m[g].put(&w, format)
+		m[g].put(&w, format, &slots, &blobs)
 	}
-	w.children(0, []int{2}, [][]byte{Coverage(gs...)})
+	w.children(0, slots, blobs)
 	return w.b
 }
 
@@ -214,8 +258,9 @@ func SinglePosValue(glyphs []uint16, format int, v Value) []byte {
 	w.u16(1)
 	w.u16(0)
 	w.u16(format)
-	v.put(&w, format)
-	w.children(0, []int{2}, [][]byte{Coverage(glyphs...)})
+	slots, blobs := []int{2}, [][]byte{Coverage(glyphs...)}
+	v.put(&w, format, &slots, &blobs)
+	w.children(0, slots, blobs)
 	return w.b
 }
 
@@ -243,8 +288,8 @@ func PairPos1(format1, format2 int, pairs []Pair) ([]byte, error) {
 	var w buf
 	w.u16(1)
 	w.u16(0)
-	w.u16(format1)
-	w.u16(format2)
+	w.u16(format1 & 0xF) // (no Device tables in format 1: their offsets are relative to the pair set)
+	w.u16(format2 & 0xF)
 	w.u16(len(gs))
 	slots := []int{2}
 	blobs := [][]byte{Coverage(gs...)}
@@ -257,8 +302,8 @@ func PairPos1(format1, format2 int, pairs []Pair) ([]byte, error) {
 		s.u16(len(ps))
 		for _, p := range ps {
 			s.u16(int(p.Second))
-			p.V1.put(&s, format1)
-			p.V2.put(&s, format2)
+			p.V1.put(&s, format1&0xF, nil, nil)
+			p.V2.put(&s, format2&0xF, nil, nil)
 		}
 		blobs = append(blobs, s.b)
 	}
@@ -279,14 +324,15 @@ func PairPos2(cov []uint16, class1, class2 map[uint16]int, n1, n2, format1, form
 	w.u16(0)
 	w.u16(n1)
 	w.u16(n2)
+	slots, blobs := []int{2, 8, 10}, [][]byte{Coverage(cov...), classDef2(class1), classDef2(class2)}
 	for i := 0; i < n1; i++ {
 		for j := 0; j < n2; j++ {
 			v1, v2 := value(i, j)
-			v1.put(&w, format1)
-			v2.put(&w, format2)
+			v1.put(&w, format1, &slots, &blobs)
+			v2.put(&w, format2, &slots, &blobs)
 		}
 	}
-	if err := w.children(0, []int{2, 8, 10}, [][]byte{Coverage(cov...), classDef2(class1), classDef2(class2)}); err != nil {
+	if err := w.children(0, slots, blobs); err != nil {
 		return nil, err
 	}
 	return w.b, nil
